@@ -3,7 +3,7 @@
      _impl_load_ontology, _fetch_latest_release_if_missing, resolve_store_path, clear
    as a state machine over the I/O boundaries of a load.  The world holds a file system, any number of
    loaders (threads / processes), each with its own fault plan; a step advances ONE loader by ONE
-   boundary, kills it (it never runs again; the file system keeps whatever it holds), or clears.
+   boundary (isfile, fetch, mkstemp, read, write, close, replace, load), kills it (it never runs again; the file system keeps whatever it holds), or clears.
    Paths are structured: the cache location Final, a loader's temporary file Temp (mkstemp: unique
    name, '.tmp' suffix - never a cache location), anything else under a type directory Other.
    Definitions only. *)
@@ -37,7 +37,9 @@ Definition fdel (fs : fsys) (p : path) : fsys := filter (fun e => negb (path_eqb
 Definition fput (fs : fsys) (p : path) (b : bytes) : fsys := (p, b) :: fdel fs p.
 
 (* what can go wrong in one load *)
-Inductive fault := NoFault | FetchRaises | ReadRaises | WriteFails (k : nat).
+(* WriteFails k: write() puts k bytes into the file and raises; CloseFails k: write() succeeds into the io buffer and the
+   flush at close() puts k bytes into the file and raises (the usual way a small payload fails on a full disk) *)
+Inductive fault := NoFault | FetchRaises | ReadRaises | WriteFails (k : nat) | CloseFails (k : nat).
 
 (* program counter of a loader: which I/O boundary comes next *)
 Inductive pc :=
@@ -46,8 +48,9 @@ Inductive pc :=
 | PMiss             (* isfile was false; next: makedirs + fetch_ontology *)
 | PFetched          (* next: mkstemp in the target directory *)
 | PTemp             (* temp exists, empty; next: response.read() *)
-| PRead             (* bytes in memory; next: write to temp + close *)
-| PWriteFailed      (* a prefix is in temp, the write raised; next: cleanup (remove temp) *)
+| PRead             (* bytes in memory; next: write() into the (buffered) temp file *)
+| PBuffered         (* write() returned, the data may still sit in the io buffer; next: close() (flush) *)
+| PWriteFailed      (* a prefix is in temp, write() or close() raised; next: cleanup (remove temp) *)
 | PWritten          (* temp holds everything, closed; next: os.replace(temp, final) *)
 | PPublished        (* next: loader_func(final) *)
 | PDone (b : bytes) (* returned the ontology parsed from b *)
@@ -81,8 +84,12 @@ Definition advance (fs : fsys) (l : loader) : fsys * pc * bool :=
              end
   | PRead => match l_fault l with
              | WriteFails k => (match fget fs tmp with Some _ => fput fs tmp (firstn k (remote (l_type l) (l_release l))) | None => fs end, PWriteFailed, false)
-             | _ => (match fget fs tmp with Some _ => fput fs tmp (remote (l_type l) (l_release l)) | None => fs end, PWritten, false)
+             | _ => (fs, PBuffered, false)                          (* nothing is guaranteed to have reached the file yet *)
              end
+  | PBuffered => match l_fault l with
+                 | CloseFails k => (match fget fs tmp with Some _ => fput fs tmp (firstn k (remote (l_type l) (l_release l))) | None => fs end, PWriteFailed, false)
+                 | _ => (match fget fs tmp with Some _ => fput fs tmp (remote (l_type l) (l_release l)) | None => fs end, PWritten, false)
+                 end
   | PWriteFailed => (fdel fs tmp, PFailed, false)
   | PWritten => match fget fs tmp with
                 | Some b => (fput (fdel fs tmp) fin b, PPublished, false)    (* os.replace: atomic *)
